@@ -404,6 +404,9 @@ pub enum Fate {
     Extend(usize),
     /// re-encode a padded single-packet Initial datagram so that the datagram has this size
     Shrink(usize),
+    /// what the network does to the ECN field: 0 congestion experienced (only on ECN-capable
+    /// datagrams), 1 strip the mark, 2 rewrite to ECT(1)
+    Ecn(u8),
 }
 
 pub fn parse_fate(s: &str) -> Fate {
@@ -420,6 +423,9 @@ pub fn parse_fate(s: &str) -> Fate {
         "trunc" => Fate::Truncate(it.next().unwrap().parse().unwrap()),
         "ext" => Fate::Extend(it.next().unwrap().parse().unwrap()),
         "shrink" => Fate::Shrink(it.next().unwrap().parse().unwrap()),
+        "ce" => Fate::Ecn(0),
+        "bleach" => Fate::Ecn(1),
+        "ect1" => Fate::Ecn(2),
         o => panic!("unknown fate {o}"),
     }
 }
@@ -1112,6 +1118,15 @@ impl World {
                 d.at_us += *us;
                 self.enqueue(d);
             }
+            Fate::Ecn(k) => {
+                d.ecn = match (*k, d.ecn) {
+                    (_, None) => None,
+                    (0, Some(_)) => Some(EcnCodepoint::Ce),
+                    (1, Some(_)) => None,
+                    (_, Some(_)) => Some(EcnCodepoint::Ect1),
+                };
+                self.enqueue(d);
+            }
             Fate::Corrupt(pos, x) => {
                 let l = d.data.len() as i64;
                 let p = if *pos >= 0 { *pos } else { l + *pos };
@@ -1381,6 +1396,7 @@ impl World {
             "long":d.data.first().is_some_and(|b| b & 0x80 != 0),"damaged":d.damage.is_some(),"src":addr_id(d.src),
             "ver":if d.data.len() >= 5 { u32::from_be_bytes([d.data[1], d.data[2], d.data[3], d.data[4]]) as i64 } else { -1 },
             "size":size,"cls":d.cls,"first":d.data.first().copied().unwrap_or(0),"pk":pk,
+            "ecnm":match d.ecn { None => "none", Some(EcnCodepoint::Ect0) => "ect0", Some(EcnCodepoint::Ect1) => "ect1", Some(EcnCodepoint::Ce) => "ce" },
             "exact":d.exact,"ipk":ipk,
             "otypes":d.pkts.iter().map(|p| match p.ty { PType::Retry => "R", PType::VersionNeg => "V", _ => "P" }).collect::<String>()});
         let mut base = base;
@@ -1995,6 +2011,9 @@ pub fn fate_str(f: &Fate) -> String {
         Fate::Truncate(_) => "trunc".into(),
         Fate::Extend(_) => "ext".into(),
         Fate::Shrink(_) => "shrink".into(),
+        Fate::Ecn(0) => "ce".into(),
+        Fate::Ecn(1) => "bleach".into(),
+        Fate::Ecn(_) => "ect1".into(),
     }
 }
 
@@ -2027,7 +2046,8 @@ pub fn frame_json(f: &Frame) -> Value {
             ranges,
             ecn,
         } => json!({"f":"ACK","largest":largest,"delay":delay,
-            "ranges":ranges.iter().map(|(a,b)| json!([a,b])).collect::<Vec<_>>(),"ecn":ecn.is_some()}),
+            "ranges":ranges.iter().map(|(a,b)| json!([a,b])).collect::<Vec<_>>(),"ecn":ecn.is_some(),
+            "ecnc":ecn.map(|(a, b, c)| json!([a, b, c]))}),
         Frame::ResetStream {
             id,
             code,
@@ -2128,7 +2148,7 @@ pub fn probe_json(p: &quinn_proto::verif::ConnProbe, level: u8) -> Value {
         json!({"rem":p.remote.map_or(0, addr_id),"gen":p.generation,"val":p.validated,
             "sent":p.total_sent,"recvd":p.total_recvd,"chal":p.challenge,"chalp":p.challenge_pending,
             "ifb":p.in_flight_bytes,"ifae":p.in_flight_ack_eliciting,"mtu":p.mtu,"cwnd":p.cwnd,
-            "rtt":p.rtt_us,"ptob":p.pto_base_us})
+            "rtt":p.rtt_us,"ptob":p.pto_base_us,"secn":p.sending_ecn})
     };
     let spaces: Vec<Value> = p
         .spaces
